@@ -1,6 +1,7 @@
 package rules
 
 import (
+	"go/token"
 	"go/types"
 	"sort"
 	"strings"
@@ -84,6 +85,13 @@ func (eo *errOrigins) ofValue(fn *ssa.Function, v ssa.Value, at ssa.Instruction,
 			return out
 		}
 		tn := typeStr(x.X.Type())
+		if ld, ok := x.X.(*ssa.UnOp); ok && ld.Op == token.MUL {
+			if g, ok := ld.X.(*ssa.Global); ok {
+				// one error value shared by all rejections: AddPathSegment prepends in place
+				out[eo.origin(fn, x, "shared package-level error value "+g.Name(), false)] = true
+				return out
+			}
+		}
 		out[eo.origin(fn, x, tn, tn == "*schema.ConstraintError")] = true
 	case *ssa.ChangeInterface:
 		add(eo.ofValue(fn, x.X, at, depth+1))
@@ -205,6 +213,9 @@ func (c *Ctx) ruleErrOrigin(rule string) {
 		case c.schemaModeOnly(h.o.fn, h.o.in):
 			c.R.Add(core.Obligation{Rule: rule, Key: k, Pos: pos, What: "non-constraint error origin in schema-mode compatibility code", Status: core.Info,
 				How: "only reached when the argument is itself a schema (dominated by a successful assertion to a schema type); C17 speaks of data rejected by Unserialize / Validate"})
+		case strings.HasPrefix(h.o.kind, "shared package-level error value"):
+			c.R.Bad(rule, k, pos, "a rejection returns a "+h.o.kind,
+				"containers attach their path segment by mutating the error they receive (AddPathSegment prepends in place): a value shared between rejections accumulates the paths of all earlier rejections (the second one names elements of the first), and concurrent rejections race on it; reaches "+firstN(h.entries, 3))
 		default:
 			c.R.Bad(rule, k, pos, "rejection that is not a constraint error ("+h.o.kind+")",
 				"errors.As(err, *ConstraintError) fails for it and containers cannot attach the path: the author cannot locate the offending element; reaches "+firstN(h.entries, 3))
